@@ -104,6 +104,19 @@ CHECKS = {
        "is not demanded: the writer reorders categories). Injectivity is claimed for substitution alphabets without repeated letters.",
   technique="Lean 4 proof (frame conditions, first-seen map) + parsed-document correspondence on corpus and generated mmCIF + CLI subprocess runs",
   ref="9/C20"),
+ "C18": dict(
+  text="Lean theorems (Props.C18): both torsion functions modelled as the pair handed to atan2 (polynomials in the coordinates, common "
+       "positive factors dropped and proved harmless: v1_scaling, v2_scaling). Over ℝ with atan2 := Complex.arg: for the canonical frame "
+       "with ANY bond lengths and angles tertiary.py returns φ (v1_returns_phi), extended to every placement by rigid-motion invariance "
+       "(dot_rot, triple_rot, binet, torsion_rigid_invariant → C18_v1), reversal keeps and mirroring negates the value; for tertiary_v2 "
+       "the same computation gives −φ (v2_returns_neg_phi, v2_eq_neg_v1): the full claim is kept as C18_v2_full with a proved negation "
+       "(C18_v2_full_false) and the true part as v2_returns_phi_partial. The −φ defect is a KNOWN FINDING (the two pinned tests fix opposite "
+       "conventions); every other deviation (magnitude, range, laws, v1) is still reported.",
+  note="Float round-off, numpy cross/dot/norm and math.atan2 are outside the model (agreement demanded within 1e-9 on exactly representable "
+       "rational inputs); that every non-degenerate quadruple is a rigidly moved canonical one is by construction, not proved; "
+       "'A-form χ is anti' is checked on the corpus.",
+  technique="Lean 4 proof over ℝ (Complex.arg, ring identities, rigid-motion invariance) + exact-rational twin vs both real functions on constructed quadruples and corpus torsions",
+  ref="9/C18"),
 }
 
 NOT_YET = {}
